@@ -582,6 +582,12 @@ def judge_c14(chk, s, mline):
     z = zombies(s)
     if not t.get("detached") and z is not None and (z[0] or z[1]):
         bad.append("after the failed start %d zombie(s) and %d running command(s) of the attempt remain" % z)
+    # the command that could not be started is collected whether detached or not (only commands that did start may
+    # be left to themselves by detached())
+    zp = [int(x) for x in (out_field(s, "zombie_pids") or "").split(",") if x]
+    fk = forks(s)
+    if len(fk) > k and fk[k] in zp:
+        bad.append("the process forked for the command that could not be started (stage %d) was left as a zombie%s" % (k, " (detached)" if t.get("detached") else ""))
     # the order of closes and waits on the error path
     comm = t["term"] in ("capture", "communicate")
     waits, pid_stage = pipe_labels(s, launches + [{}], comm)
